@@ -311,3 +311,54 @@ theorem recover_threshold_zero (shares : List Share) : ∃ k, recover 0 shares =
     | some vals => simp [interpolate]
 
 end StarModel.Sharks
+
+namespace StarModel.Sharks
+open StarModel
+
+/-- on ARBITRARY shares: what the loop keeps are the first occurrences of each x -/
+theorem collect_xs (len : Nat) (shares : List Share) (keys : List Nat) (acc vals : List Share)
+    (h : collect len shares keys acc = some vals) :
+    vals.map (·.x) = acc.reverse.map (·.x) ++ firstsAux keys (shares.map (·.x)) := by
+  induction shares generalizing keys acc with
+  | nil =>
+    unfold collect at h; injection h with h; subst h; simp [firstsAux]
+  | cons s rest ih =>
+    unfold collect at h
+    by_cases hl : s.y.length ≠ len
+    · simp [hl] at h
+    · simp only [hl, if_false] at h
+      simp only [List.map_cons]
+      unfold firstsAux
+      by_cases hk : keys.contains s.x = true
+      · rw [if_pos hk] at h ⊢; exact ih _ _ h
+      · rw [if_neg hk] at h ⊢
+        rw [ih _ _ h]; simp
+
+/-- **count gate**: `Sharks(t).recover` succeeds only if `t ≥ 1` and the collection holds at
+least `t` distinct points — duplicates never count -/
+theorem recover_ok_count (t : Nat) (shares : List Share) (key : Bytes) (h : recover t shares = .ok key) :
+    1 ≤ t ∧ t ≤ (shares.map (·.x)).toFinset.card := by
+  unfold recover at h
+  cases shares with
+  | nil => cases h
+  | cons s0 rest =>
+    simp only at h
+    cases hc : collect s0.y.length (s0 :: rest) [] [] with
+    | none => rw [hc] at h; cases h
+    | some vals =>
+      rw [hc] at h
+      simp only at h
+      by_cases hlt : vals.length < t
+      · rw [if_pos hlt] at h; cases h
+      · rw [if_neg hlt] at h
+        have hx := collect_xs _ _ _ _ _ hc
+        simp only [List.reverse_nil, List.map_nil, List.nil_append] at hx
+        have hlen : vals.length = ((s0 :: rest).map (·.x)).toFinset.card := by
+          rw [← firsts_length, ← List.length_map (f := (·.x)), hx]; rfl
+        refine ⟨?_, by omega⟩
+        by_contra h0
+        have : t = 0 := by omega
+        subst this
+        simp [interpolate] at h
+
+end StarModel.Sharks
